@@ -62,6 +62,23 @@ PROPS["C13"] = dict(
                "byte source is not compared.",
     explanation=MIX)
 
+PROPS["C15"] = dict(
+    level="other", claimed=True,
+    level_text="Integer part of FRI completeness only: Kani contracts on the real position folding, layer-count and "
+               "position-to-leaf-index functions (layer count and index map complete over their whole admissible domains; "
+               "position folding bounded in list length).",
+    level_note="NOT decided by this check: the folding identity of apply_drp (algebraic identity over symbolic field values, "
+               "beyond the SAT back end) and acceptance of honest proofs end to end; prover reuse.",
+    explanation=MIX)
+PROPS["C16"] = dict(
+    level="other", claimed=True,
+    level_text="Assertion bookkeeping only: overlaps_with is equivalent to 'a common named step exists' for all pairs of "
+               "well-formed assertions (bounded in trace length), and validate_trace_length / get_num_steps accept exactly the "
+               "well-formed single and periodic assertions (all lengths).",
+    level_note="NOT decided by this check: the zero sets of the transition and boundary divisors (field-valued), the value "
+               "polynomial of BoundaryConstraint, sequence assertions' validation, set_num_transition_exemptions.",
+    explanation=MIX)
+
 NOT_APPLICABLE.update({
     "C01": "whole-protocol completeness over all AIR programs: no per-function contract carries it (DESIGN.md 4.C01)",
     "C02": "cryptographic soundness is probabilistic and adversarial, not a safety property of any function (DESIGN.md 4.C02)",
